@@ -12,6 +12,15 @@ theorem pres_rwA {s s' : St} {a : Act} (hI : Inv s) (h : step .repaired s a = so
   | fire t0 =>
     simp only [step] at h
     (repeat' (split at h)) <;> (try cases h) <;> (simp only [St.setPc, St.setObj]; (have i_rdA := hI.rdA; have i_rdB := hI.rdB; have i_rwA := hI.rwA; have i_rwB := hI.rwB; have i_refs := hI.refs; grind [rslot, PC.ref]))
+  | corrupt d =>
+    simp only [step] at h
+    (repeat' (split at h)) <;> (try cases h) <;> (simp only []; (have i_rdA := hI.rdA; have i_rdB := hI.rdB; have i_rwA := hI.rwA; have i_rwB := hI.rwB; have i_refs := hI.refs; grind [rslot, PC.ref]))
+  | block d =>
+    simp only [step] at h
+    (repeat' (split at h)) <;> (try cases h) <;> (simp only []; (have i_rdA := hI.rdA; have i_rdB := hI.rdB; have i_rwA := hI.rwA; have i_rwB := hI.rwB; have i_refs := hI.refs; grind [rslot, PC.ref]))
+  | repair d =>
+    simp only [step] at h
+    (repeat' (split at h)) <;> (try cases h) <;> (simp only []; (have i_rdA := hI.rdA; have i_rdB := hI.rdB; have i_rwA := hI.rwA; have i_rwB := hI.rwB; have i_refs := hI.refs; grind [rslot, PC.ref]))
   | run t0 =>
     simp only [step] at h
     split at h
